@@ -58,4 +58,20 @@ def expectedFor_C06 : List (String × String) := [
 /-- the code behind C06 branches on exactly the conditions the model was written against -/
 theorem conditions_as_modelled_C06 : Gen.condSitesFor_C06 = expectedFor_C06 := by rfl
 
+def expectedOptFor_C06 : List (String × String) := [
+  ("v2/list.go:jsonList.Diff:getPatchStrategy#1", "own"),
+  ("v2/list.go:jsonList.diff:diffMergePatchStrategy#1", "own"),
+  ("v2/list.go:jsonList.diff:hashCode#1", "own"),
+  ("v2/list.go:jsonList.diff:hashCode#2", "own"),
+  ("v2/list.go:jsonList.diff:diffRest#1", "own"),
+  ("v2/list.go:jsonList.diffRest:sameContainerType#1", "own"),
+  ("v2/list.go:jsonList.diffRest:diffRest#1", "own"),
+  ("v2/list.go:jsonList.diffMergePatchStrategy:Equals#1", "own"),
+  ("v2/list.go:sameContainerType:dispatch#1", "own"),
+  ("v2/list.go:sameContainerType:dispatch#2", "own")
+]
+
+/-- every call inside the functions behind C06 passes on the option / metadata list the model passes on -/
+theorem option_plumbing_as_modelled_C06 : Gen.optSitesFor_C06 = expectedOptFor_C06 := by rfl
+
 end Jd.CondSites
